@@ -73,6 +73,7 @@ type vC04Scn struct {
 	Mode  string     `json:"mode"`
 	RSeed int64      `json:"rseed"`
 	Len   int        `json:"len"`
+	Fixed string     `json:"fixed"` // mode random: a fixed history instead of a drawn one
 }
 
 const vC04TTL = 2
@@ -292,6 +293,7 @@ func (r *vC04Run) runSchedule(scn *vC04Scn, alphabet map[string]bool) {
 		order = append(order, "x")
 	}
 	mism, unused, blocked := 0, 0, 0
+	stalled := false
 	stuck := map[string]bool{}
 
 	noteDone := func(name string) {
@@ -384,8 +386,16 @@ func (r *vC04Run) runSchedule(scn *vC04Scn, alphabet map[string]bool) {
 				if a := actors[name]; a.started && !a.retd {
 					if l, _ := sched.await(name, 5*time.Second); l == "done" {
 						noteDone(name)
+					} else if l == "" {
+						stalled = true
 					}
 				}
+			}
+			if stalled {
+				// somebody is still running (machine stall, or blocked in modified code): rewriting timestamps
+				// now could overwrite what it writes.  The rest of the schedule is dropped and the trace is not
+				// judged (checks/C04.py counts it; too many = infrastructure error).
+				break
 			}
 			s.tick(st.V)
 			r.log(map[string]interface{}{"ev": "tick", "d": st.V})
@@ -451,6 +461,9 @@ func (r *vC04Run) runSchedule(scn *vC04Scn, alphabet map[string]bool) {
 	r.events[0]["unknown"] = unk
 	if hang {
 		r.events[0]["hang"] = true
+	}
+	if stalled {
+		r.events[0]["stalled"] = true
 	}
 }
 
@@ -549,11 +562,34 @@ func TestVerifC04(t *testing.T) {
 				scn.Pre[k] = pres[rnd.Intn(len(pres))]
 				scn.Pretr[k] = pretrs[rnd.Intn(len(pretrs))]
 			}
+			if scn.Fixed == "rolist" {
+				// "only on writable volumes": a trash-list item that names a READ-ONLY mount and the right
+				// timestamp of an old copy there (both ways of being read-only, see vksStart)
+				scn.N, scn.Ser, scn.Trash = 2, false, true
+				scn.RO = []bool{scn.RSeed%2 == 0, scn.RSeed%2 == 1}
+				scn.Life = []int{0, 2}[(scn.RSeed/2)%2]
+				scn.Pre = []string{"intact_old", "intact_old"}
+				scn.Pretr = []string{"none", "none"}
+			}
 			r := &vC04Run{srv: vksGet(t, parent, vksConf{N: scn.N, RO: scn.RO, Ser: scn.Ser, Life: scn.Life, TTL: vC04TTL, Trash: scn.Trash})}
 			r.populate(scn)
 			r.log(r.resetEv(scn))
 			r.events[0]["pre"] = scn.Pre
 			r.events[0]["pretr"] = scn.Pretr
+			if scn.Fixed == "rolist" {
+				rov := 1
+				if scn.RO[1] {
+					rov = 2
+				}
+				reqNs, tok := r.requestStamp(rov, false)
+				r.log(map[string]interface{}{"ev": "call", "id": 1, "op": "trashlist", "mount": rov, "req": tok})
+				st := r.perform("trashlist", rov, reqNs)
+				r.log(map[string]interface{}{"ev": "ret", "id": 1, "status": st})
+				r.log(r.scanEv("scan"))
+				r.events[0]["ops"] = []string{"trashlist"}
+				r.finish(tw)
+				continue
+			}
 			r.runRandom(scn, rnd)
 			r.finish(tw)
 			continue
